@@ -322,12 +322,16 @@ TensorOut(ob, by) ==
                         cells |-> [c \in 1..Len(ob.cols) |-> [j \in 1..Len(ps[g]) |-> ob.val[ps[g][j]][c][1]]]]]
 
 (* ---------------- projections --------------------------------------------- *)
-TLj(tl) == <<tl.w, tl.d, tl.b, tl.ph>>
-Strip(ob) == [kind |-> ob.kind,
+\* compact JSON form of the ghost labels (NoT -> 0, free slot -> 0, only present dataset descriptors)
+TLj(tl) == IF tl = NoT THEN 0 ELSE <<tl.w, tl.d, tl.b, tl.ph>>
+Strip(ob) == IF ob.kind = "N" THEN 0 ELSE
+             [kind |-> ob.kind,
               rows |-> [i \in 1..Len(ob.rows) |-> <<ob.rows[i][1], TLj(ob.rows[i][2])>>],
               cols |-> [i \in 1..Len(ob.cols) |-> <<ob.cols[i][1], TLj(ob.cols[i][2])>>],
               tims |-> [i \in 1..Len(ob.tims) |-> TLj(ob.tims[i])],
-              okeys |-> ob.okeys, ckeys |-> ob.ckeys, tkeys |-> ob.tkeys, dd |-> ob.dd]
+              okeys |-> ob.okeys, ckeys |-> ob.ckeys, tkeys |-> ob.tkeys,
+              dd |-> [i \in 1..Cardinality({k \in DKeys : ob.dd[k] # Absent(k)}) |->
+                        LET k == SetToSeq({k \in DKeys : ob.dd[k] # Absent(k)})[i] IN <<k, ob.dd[k]>>]]
 \* what can be read off a real object: descriptor columns (<<>> = descriptor absent), dataset
 \* descriptors and the cells
 Obs(ob) == [kind |-> ob.kind,
@@ -346,12 +350,12 @@ OutObs(h, e) ==
 
 (* ---------------- argument domains for enumeration ------------------------ *)
 SeqsUpTo(S, n) == UNION {[1..k -> S] : k \in 1..n}
-Trim(S) == {<<x>> : x \in S} \cup
-           (IF Cardinality(S) >= 2
-            THEN LET a == CHOOSE x \in S : TRUE
-                     b == CHOOSE x \in S \ {a} : TRUE
-                 IN {<<b, a>>, <<a, a>>}
-            ELSE {})
+\* trimmed domain: two single values, one pair in non-ascending order, one repeated value
+Trim(S) == IF Cardinality(S) >= 2
+           THEN LET a == CHOOSE x \in S : TRUE
+                    b == CHOOSE x \in S \ {a} : TRUE
+                IN {<<a>>, <<b>>, <<b, a>>, <<a, a>>}
+           ELSE {<<x>> : x \in S}
 ValSeqs(S, n) == IF ArgLevel >= 2 THEN SeqsUpTo(S, n) ELSE Trim(S)
 \* values of a column, plus (full domains, integer keys) one value that occurs nowhere
 ArgVals(col, k) == Range(col) \cup (IF ArgLevel >= 2 /\ IntKey(k) THEN {99} ELSE {})
@@ -373,7 +377,7 @@ MaxParts == 4
 ObjEvents(h, o, f) ==
   LET ob == h[o] IN
   CASE f = "split" -> {Ev(op, o, k, by, "", <<>>) : op \in {"split_obs", "split_channel", "split_time"},
-                                                   by \in DKeys, k \in 1..MaxParts}
+                                                   by \in DKeys, k \in 1..(IF ArgLevel >= 2 THEN MaxParts ELSE 2)}
     [] f = "splitmerge" -> {Ev("split_merge", o, 0, by, "", <<>>) : by \in ob.okeys}
     [] f = "subobs" -> UNION {{Ev("subset_obs", o, 0, by, "", v) : v \in ValSeqs(ArgVals(ODesc(ob, by), by), 2)} : by \in ob.okeys}
     [] f = "subchan" -> UNION {{Ev("subset_channel", o, 0, by, "", v) : v \in ValSeqs(ArgVals(CDesc(ob, by), by), 2)} : by \in ob.ckeys}
